@@ -159,6 +159,7 @@ func c02Body(r *Run) {
 	rig := newRouterRig(r, closeTimeout)
 	var hs []*c2Handler
 	invoked := map[*Delivery]int{}
+	raceSettle := map[*Delivery]bool{} // deliveries whose handler also settles (Nack) from a goroutine of its own
 	inPublishUnsettled := 0
 	for i := 0; i < nHandlers; i++ {
 		h := &c2Handler{name: fmt.Sprintf("h%d", i), topic: fmt.Sprintf("in%d", i), plans: map[string]c2Plan{}}
@@ -213,6 +214,9 @@ func c02Body(r *Run) {
 			}
 			invoked[d]++
 			d.Started = r.Sim.Step()
+			if mixed && len(invoked)%7 == 3 {
+				raceSettle[d] = true
+			}
 			if slowClose {
 				time.Sleep(5 * time.Second)
 			}
@@ -222,6 +226,15 @@ func c02Body(r *Run) {
 			var outs []*message.Message
 			for k := 0; k < hbOutputs(p.hb); k++ {
 				outs = append(outs, mkOut(d, k))
+			}
+			if raceSettle[d] {
+				// a watchdog of the handler settles the message from another goroutine just as the handler returns: whoever
+				// comes first decides, and exactly one of the two outcomes stands
+				r.Fault("handler-side-settlement-races-with-the-router")
+				go func() {
+					simrt.Yield()
+					msg.Nack()
+				}()
 			}
 			switch p.hb {
 			case hbAckOK, hbAckErr, hbAckPanic:
@@ -264,7 +277,7 @@ func c02Body(r *Run) {
 			for _, d := range h.sub.Deliveries {
 				if fmt.Sprintf("%s#%d", d.Msg.UUID, d.Attempt) == src {
 					p := h.planFor(d)
-					selfSettled := p.hb >= hbAckOK && p.hb <= hbNackPanic
+					selfSettled := (p.hb >= hbAckOK && p.hb <= hbNackPanic) || raceSettle[d]
 					if !selfSettled && d.Settled() {
 						r.Fail("C02.R3", "the consumed message was already settled while its outputs were being published", "handler %s %s acked=%v nacked=%v inside Publish", h.name, src, d.Acked(), d.Nacked())
 					}
@@ -308,7 +321,12 @@ func c02Body(r *Run) {
 		switch h.mp {
 		case mpPass:
 			hh.AddMiddleware(func(next message.HandlerFunc) message.HandlerFunc {
-				return func(m *message.Message) ([]*message.Message, error) { return next(m) }
+				return func(m *message.Message) ([]*message.Message, error) {
+					// passes everything on, in a slice of its own (never nil, also when there is nothing in it)
+					outs, err := next(m)
+					rebuilt := make([]*message.Message, 0, len(outs)+1)
+					return append(rebuilt, outs...), err
+				}
 			})
 		case mpAddOutput:
 			hh.AddMiddleware(func(next message.HandlerFunc) message.HandlerFunc {
@@ -344,6 +362,9 @@ func c02Body(r *Run) {
 				}
 				if d.Acked() && d.Nacked() {
 					r.Fail("C02.R1", "message both acked and nacked", "%s", what)
+				}
+				if raceSettle[d] {
+					continue // either outcome stands (but not both: checked above)
 				}
 				if d.Acked() != e.acked {
 					sig := "message acked although the chain failed or its outputs were not accepted"
